@@ -429,7 +429,7 @@ func checkMain(args []string) int {
 	obligs := spec.Obligs(tier)
 	deadline := 240 * time.Second
 	if tier == "thorough" {
-		deadline = 25 * time.Minute
+		deadline = 45 * time.Minute
 	}
 	if spec.Deadline != nil {
 		deadline = spec.Deadline(tier)
